@@ -93,6 +93,7 @@ func (f *FileOutputHandler) Write(
 					Hash:      fileHash,
 					SizeBytes: fileInfo.Size(),
 				},
+				IsExecutable: fileInfo.Mode()&0111 != 0,
 			},
 		},
 	}, nil
@@ -110,7 +111,7 @@ func (f *FileOutputHandler) Load(
 	// If the local hash is the same as the cached one we don't need to
 	// load the file from the CAS
 	if err == nil && existingHash == output.GetFile().GetDigest().GetHash() {
-		return nil
+		return restoreExecutableBit(absOutputPath, output.GetFile())
 	}
 
 	progress := tracker
@@ -154,5 +155,13 @@ func (f *FileOutputHandler) Load(
 		return err
 	}
 
-	return nil
+	return restoreExecutableBit(absOutputPath, output.GetFile())
+}
+
+// restoreExecutableBit makes the restored file executable if it was executable when it was cached.
+func restoreExecutableBit(path string, file *gen.FileOutput) error {
+	if !file.GetIsExecutable() {
+		return nil
+	}
+	return os.Chmod(path, 0755)
 }
